@@ -270,6 +270,7 @@ if "resample" in req:
         try:
             tgt = build_geo(c["target"])
             src = build_geo(c["source"], tgt)
+            light = bool(c.get("light"))
             layout = c["source"].get("layout", "C")
             lay = layout_fn(layout)           # the data arrays are passed in the same memory layout as the source lon/lat
             kw = dict(neighbours=c["neighbours"], reduce_data=bool(c.get("reduce_data", False)))
@@ -287,12 +288,34 @@ if "resample" in req:
             if c.get("want_numpy", True):
                 rn = NumpyBilinearResampler(src, tgt, c["radius"], **kw)
                 rn.get_bil_info()
-                r["sx"], r["sy"], r["ox"], r["oy"] = jl(sx), jl(sy), jl(ox), jl(oy)
+                r["ox"], r["oy"] = jl(ox), jl(oy)
                 r["t"], r["s"] = jl(rn.bilinear_t), jl(rn.bilinear_s)
                 r["slices_x"] = np.asarray(rn.slices_x).astype(int).tolist()
                 r["slices_y"] = np.asarray(rn.slices_y).astype(int).tolist()
                 r["mask"] = np.asarray(rn.mask_slices).astype(int).tolist()
-                r["data"] = {k: jl(v) for k, v in fl.items()}
+                # the flat source position each corner index refers to (a gather through the validity mask; no arithmetic):
+                # the look-up tables must address exactly these pixels
+                r["corner_flat"] = np.flatnonzero(np.asarray(rn._valid_input_index))[np.asarray(rn._index_array)].astype(int).tolist()
+                # masked-array input: hidden values (instrument fill) that differ wildly from their neighbours
+                rs2 = np.random.RandomState(c["data_seed"] + 1)
+                msk = rs2.rand(*lons.shape) < 0.12
+                hid = fl["random"].copy()
+                hid[msk] = 1e6 * (1 + rs2.rand(int(msk.sum())))
+                if light:
+                    # very large source: only the pixels the tables (or the corner indices) point at travel back
+                    W_ = lons.shape[1]
+                    used = np.unique(np.concatenate([(np.asarray(rn.slices_y).astype(np.int64) * W_ + np.asarray(rn.slices_x)).ravel(),
+                                                     np.asarray(r["corner_flat"], dtype=np.int64).ravel()]))
+                    used = used[(used >= 0) & (used < lons.size)]
+                    sp = lambda a: {str(int(f)): float(np.ravel(a)[f]) for f in used}   # noqa: E731
+                    r["sx"], r["sy"] = sp(sx), sp(sy)
+                    r["data"] = {k: sp(v) for k, v in fl.items()}
+                    r["mask_src"] = {str(int(f)): int(np.ravel(msk)[f]) for f in used}
+                else:
+                    r["sx"], r["sy"] = jl(sx), jl(sy)
+                    r["data"] = {k: jl(v) for k, v in fl.items()}
+                    r["mask_src"] = msk.astype(int).ravel().tolist()
+                r["affine_range"] = [float(fl["affine"].min()), float(fl["affine"].max())]
                 r["valid_out"] = np.flatnonzero(rn._valid_output_indices).astype(int).tolist()
                 ints_ = {}
                 if c.get("int_dtypes"):
@@ -308,6 +331,17 @@ if "resample" in req:
                     stack = np.stack([fl["const"], fl["affine"], fl["random"]])     # (3, y, x): "bands first"
                     r["np"]["stack"] = jl(np.moveaxis(np.asarray(
                         rn.get_sample_from_bil_info(stack.copy(), fill_value=np.nan)), -1, 0))
+                    md = np.ma.array(hid, mask=msk)
+                    r["np"]["masked:2d"] = jl(np.ma.filled(np.ma.asarray(rn.get_sample_from_bil_info(md.copy(), fill_value=np.nan)), np.nan))
+                    md3 = np.ma.array(np.stack([hid, fl["affine"]]), mask=np.stack([msk, np.zeros_like(msk)]))
+                    r["np"]["masked:3d"] = jl(np.moveaxis(np.ma.filled(np.ma.asarray(
+                        rn.get_sample_from_bil_info(md3.copy(), fill_value=np.nan)), np.nan), -1, 0))
+                    if not light:
+                        from pyresample.bilinear._numpy_resampler import resample_bilinear as rb_
+                        r["np"]["masked:legacy"] = jl(np.ma.filled(np.ma.asarray(rb_(
+                            md.copy(), src, tgt, radius=c["radius"], neighbours=c["neighbours"], fill_value=np.nan,
+                            reduce_data=bool(c.get("reduce_data", False)))), np.nan))
+                        r["np"]["masked:fill0"] = jl(np.ma.filled(np.ma.asarray(rn.get_sample_from_bil_info(md.copy(), fill_value=0)), np.nan))
                     for dt, v in ints_.items():
                         r["np"]["int:" + dt] = jl(np.asarray(rn.get_sample_from_bil_info(lay(v.copy()), fill_value=0), dtype=np.float64))
                         r["np"]["intref:" + dt] = jl(rn.get_sample_from_bil_info(v.astype(np.float64), fill_value=0))
@@ -343,7 +377,7 @@ if "resample" in req:
                                     "tables_unchanged": bool(np.array_equal(np.asarray(rn.bilinear_t), np.array(r["t"]), equal_nan=True)
                                                              and np.array_equal(np.asarray(rn.slices_x), np.array(r["slices_x"])))}
                     # legacy (deprecated) entry points of _numpy_resampler.py
-                    if len(r["valid_out"]) == ox.size:
+                    if len(r["valid_out"]) == ox.size and not light:
                         from pyresample.bilinear._numpy_resampler import get_bil_info, get_sample_from_bil_info, resample_bilinear
                         try:
                             lg = {}
@@ -360,7 +394,7 @@ if "resample" in req:
                         except Exception as e:
                             r["legacy"] = err(e)
                 # one-call API as well
-                if "np" in r:
+                if "np" in r and not light:
                     r["np"]["resample_api"] = jl(NumpyBilinearResampler(src, tgt, c["radius"], **kw).resample(
                         lay(fl["random"].copy()), fill_value=np.nan))
             if c.get("want_xarray", True):
@@ -372,6 +406,16 @@ if "resample" in req:
                     key = json.dumps(chunks)
                     r["xr"][key] = {}
                     ch2 = tuple(chunks) if isinstance(chunks, list) else chunks
+                    if light:       # very large source: one resampler object, one neighbour search
+                        rx = XArrayBilinearResampler(src, tgt, c["radius"], **kw)
+                        rx.get_bil_info()
+                        for name, d in fl.items():
+                            arr = xr.DataArray(da.from_array(d.copy(), chunks=ch2), dims=("y", "x"))
+                            r["xr"][key][name] = jl(rx.get_sample_from_bil_info(arr, fill_value=np.nan).values)
+                        stack = np.stack([fl["const"], fl["affine"], fl["random"]])
+                        arr = xr.DataArray(da.from_array(stack, chunks=(1,) + ch2), dims=("bands", "y", "x"))
+                        r["xr"][key]["stack"] = jl(rx.get_sample_from_bil_info(arr, fill_value=np.nan).values)
+                        continue
                     for name, d in fl.items():
                         rx = XArrayBilinearResampler(src, tgt, c["radius"], **kw)
                         arr = xr.DataArray(da.from_array(lay(d.copy()), chunks=ch2), dims=("y", "x"))
